@@ -3,7 +3,7 @@
    Specification: the map (manager, type) -> receivers in subscription order (Events.sp_step). *)
 Require Import Coq.Lists.List Coq.Arith.Arith.
 From Mustache Require Import Events.
-From Mustache.proofs Require Import EventsProofs.
+From Mustache.proofs Require Import EventsProofs EventsRun.
 Import ListNotations.
 
 (* one step: for every well-formed state related to a specification state, every operation -- on any manager, any
@@ -31,6 +31,30 @@ Theorem C15_pinned_registration_refuted :
   exists sl, slot_of sl 1 = [7] /\ slot_of (ensure_slot_pinned sl 0) 1 = [].
 Proof. exact pinned_registration_drops_receivers. Qed.
 Print Assumptions C15_pinned_registration_refuted.
+
+(* whole runs, against a specification that is self-contained (it keeps its own list of live managers, EventsRun.sst):
+   for every script from the initial state -- any number of managers created and destroyed, any types in any order,
+   receivers subscribed and unsubscribed in any order, subscriptions and posts addressed to live managers (the API's
+   contract; unsubscribing from a destroyed manager is allowed and does nothing) -- the list of deliveries of every
+   operation of the run is the specification's, and the final states are related again *)
+Theorem C15_run_refines : forall ops, ops_ok s_init ops ->
+  run_e e_init ops = run_s s_init ops /\ Rel (final_e e_init ops) (final_s s_init ops).
+Proof. exact run_refines_init. Qed.
+Print Assumptions C15_run_refines.
+
+(* what the specification says about one subscription: it is appended to the list of its own (manager, type) and
+   changes no other list -- no cross-talk between managers or types, to whatever number of either *)
+Theorem C15_spec_subscribe_local : forall sp m ty r m' ty',
+  sget (sset sp m ty (sget sp m ty ++ [r])) m ty = sget sp m ty ++ [r] /\
+  ((m, ty) <> (m', ty') -> sget (sset sp m ty (sget sp m ty ++ [r])) m' ty' = sget sp m' ty').
+Proof. intros sp m ty r m' ty'. split; [exact (sget_after_sub sp m ty r) | exact (sget_other_sub sp m ty _ m' ty')]. Qed.
+Print Assumptions C15_spec_subscribe_local.
+
+Example C15_run_example :
+  let ops := [ENewMgr; ESub 0 0 0; ESub 0 1 1; ENewMgr; ESub 1 1 2; ESub 1 0 3; ESub 1 1 4; EUnsub 1 1 2;
+              EPost 1 1; EDelMgr 0; EUnsub 0 0 0; EPost 1 0] in
+  ops_ok s_init ops /\ run_s s_init ops = [[]; []; []; []; []; []; []; []; [4]; []; []; [3]].
+Proof. vm_compute. repeat split; auto. Qed.
 
 (* non-vacuity: second manager sees types in the opposite order *)
 Example C15_example :
